@@ -84,7 +84,7 @@ fn strategy(tier: Tier) -> BoxedStrategy<RtCase> {
         4 => proptest::collection::vec(any::<u8>(), 8000..big).prop_map(F::Bulk),
         // now and then a payload around and beyond 64 KiB and 128 KiB (filled from a seed, so that
         // it is cheap to generate and to shrink)
-        1 => (prop_oneof![65_400usize..65_700, 60_000usize..140_000], any::<u8>()).prop_map(|(n, seed)| {
+        1 => (prop_oneof![10 => 65_400usize..65_700, 10 => 60_000usize..140_000, 1 => 524_200usize..524_400, 1 => 1_048_500usize..1_048_700], any::<u8>()).prop_map(|(n, seed)| {
             let mut x = (seed as u64).wrapping_mul(0x9E3779B97F4A7C15) | 1;
             F::Bulk((0..n).map(|_| { x ^= x << 13; x ^= x >> 7; x ^= x << 17; (x >> 24) as u8 }).collect())
         }),
@@ -411,7 +411,7 @@ pub fn prop() -> Prop<RtCase> {
     Prop {
         id: "C08",
         level: "exploration",
-        rule: "Cases: 1-6 frames the connection can write (simple strings/errors of arbitrary UTF-8 without CR/LF, i64 uniform plus MIN/MAX/0/-1/powers of ten, bulk strings of arbitrary bytes 0-20 KiB quick / 200 KiB thorough and, one frame in sixty, 60-140 KB (clustered at 64 KiB), with CRLF at start/end/inside, null, flat arrays of those), a segmentation of the concatenated encoding (all at once / one byte at a time / generated cut points / cuts at and adjacent to every CRLF) and optionally a stream end strictly inside the last frame. Connection runs over an in-memory AsyncRead/AsyncWrite stream that delivers exactly those segments. Oracles: write_frame's bytes, written into a bounded pipe of generated capacity (16 B - 9 KB, so that writes are accepted only in part, or unbounded) while a reader drains it, equal a reference encoder's (differential); read_frame yields exactly the frame sequence and then Ok(None); a stream that ends inside a frame yields an error, not Ok(None) nor a frame; EVERY strict prefix of each frame's encoding (all up to 4 KiB, boundary-dense sample beyond) makes Frame::check answer Incomplete. Non-trivial: at least 2 frames and at least one segment boundary strictly inside a frame; distinct = distinct hash of the case.",
+        rule: "Cases: 1-6 frames the connection can write (simple strings/errors of arbitrary UTF-8 without CR/LF, i64 uniform plus MIN/MAX/0/-1/powers of ten, bulk strings of arbitrary bytes 0-20 KiB quick / 200 KiB thorough and, one frame in sixty, 60-140 KB (clustered at 64 KiB) or, rarely, around 512 KiB / 1 MiB, with CRLF at start/end/inside, null, flat arrays of those), a segmentation of the concatenated encoding (all at once / one byte at a time / generated cut points / cuts at and adjacent to every CRLF) and optionally a stream end strictly inside the last frame. Connection runs over an in-memory AsyncRead/AsyncWrite stream that delivers exactly those segments. Oracles: write_frame's bytes, written into a bounded pipe of generated capacity (16 B - 9 KB, so that writes are accepted only in part, or unbounded) while a reader drains it, equal a reference encoder's (differential); read_frame yields exactly the frame sequence and then Ok(None); a stream that ends inside a frame yields an error, not Ok(None) nor a frame; EVERY strict prefix of each frame's encoding (all up to 4 KiB, boundary-dense sample beyond) makes Frame::check answer Incomplete. Non-trivial: at least 2 frames and at least one segment boundary strictly inside a frame; distinct = distinct hash of the case.",
         assumptions: &["nested arrays are excluded: Connection::write_frame is unimplemented!() for them (not a frame the connection can write)"],
         needs_shim: false,
         budget: |t| t.pick(480000, 3000000),
